@@ -979,6 +979,11 @@ func GoNamed(name string, f func()) Handle {
 	return Handle{t}
 }
 
+// Go2 is GoNamed with an automatic name that still counts as a harness thread.
+func Go2(f func()) Handle {
+	return GoNamed(fmt.Sprintf("h%d", len(E.threads)), f)
+}
+
 // Join blocks until all the given goroutines have finished.
 func Join(hs ...Handle) {
 	o := &op{kind: opJoin}
